@@ -63,7 +63,7 @@ const AB_POOL: [(&str, &str); 4] = [("1", "2"), ("\"s\"", "[1, 2]"), ("null", "{
 const ARGS: [&str; 6] = ["2", "\"t\"", "[1]", "null", "true", "{k: 1}"];
 
 /// Contexts: (name, program with {CALL} placeholder, how the top-level value is wrapped)
-fn contexts(nargs: usize) -> Vec<(&'static str, String, &'static str)> {
+fn contexts(nargs: usize, thorough: bool) -> Vec<(&'static str, String, &'static str)> {
     let mut v: Vec<(&'static str, String, &'static str)> = vec![
         ("top", "{CALL}".into(), "{V}"),
         ("param-a", "((a) => {CALL})(\"junk\")".into(), "{V}"),
@@ -89,6 +89,13 @@ fn contexts(nargs: usize) -> Vec<(&'static str, String, &'static str)> {
         ("alias-through-parameter", "((x) => x({ARGS}))(f)".into(), "{V}"),
         ("alias-in-list", "[f][0]({ARGS})".into(), "{V}"),
     ];
+    // the call placed K frames deep inside a recursive helper whose parameter shadows `a`: every depth
+    // up to 300 in the thorough tier, the neighbourhoods of 32 / 64 / 128 / 256 and a few odd ones in quick
+    let depths: Vec<usize> = if thorough { (1..=300).collect() } else { vec![1, 2, 31, 32, 33, 37, 62, 63, 64, 65, 100, 127, 128, 129, 200, 255, 256, 257] };
+    for k in depths {
+        let name: &'static str = Box::leak(format!("deep-call-{}", k).into_boxed_str());
+        v.push((name, format!("do {{\n  h = (a, b, n) => if n == 0 then {{CALL}} else h(a, b, n - 1)\n  return h(\"junk\", \"junk2\", {})\n}}", k), "{V}"));
+    }
     if nargs == 1 {
         v.extend([
             ("f-as-via-callback", "[{A0}] via f".to_string(), "[{V}]"),
@@ -182,6 +189,7 @@ fn rename(t: &crate::tgen::T) -> crate::tgen::T {
 }
 
 fn check_closure(ctx: &Ctx, clo: &Clo, ab: usize) {
+    let thorough = !ctx.quick();
     let (cname, defs, nargs) = (&clo.name, &clo.defs, &clo.nargs);
     let (va, vb) = AB_POOL[ab];
     let mut s = Session::with_inputs(&[("k", json!("input-k"))]);
@@ -216,7 +224,7 @@ fn check_closure(ctx: &Ctx, clo: &Clo, ab: usize) {
             // (between contexts) a refused redefinition must change nothing
             let _ = s.run("a = 99");
             let _ = s.run("f = 1");
-            for (xname, template, wrap) in contexts(*nargs) {
+            for (xname, template, wrap) in contexts(*nargs, thorough) {
                 let arg_text = if *nargs == 1 { a0.to_string() } else { format!("{}, {}", a0, a1) };
                 let prog = template.replace("{CALL}", &call).replace("{ARGS}", &arg_text).replace("{A0}", a0).replace("{A1}", a1);
                 let got = s.run(&prog);
@@ -402,7 +410,7 @@ pub fn run(ctx: &Ctx, replay: Option<&J>) -> i32 {
     own_name_parameter_checks(ctx);
     let states = jobs.len() as u64 * 3; // sessions: (definitions) x (after each refused redefinition)
     ctx.set("closures", json!(closures().iter().map(|c| c.0).collect::<Vec<_>>()));
-    ctx.set("contexts", json!(contexts(1).iter().map(|c| c.0).chain(contexts(2).iter().skip(17).map(|c| c.0)).collect::<Vec<_>>()));
+    ctx.set("contexts", json!(contexts(1, false).iter().map(|c| c.0).collect::<Vec<_>>()));
     ctx.set("definition_value_pool", json!(AB_POOL));
     ctx.sample(json!({"definitions": ["a = 1", "b = 2", "g = y => [a, y]", "f = x => [g(x), b]"], "call": "f(2)", "context": "do {\n  a = \"junk\"\n  return f(2)\n}"}));
     ctx.sample(json!({"arity": "p = (r0, o0?, ...rs) => [r0, o0, rs]", "call": "p(...[10, 11, 12])"}));
